@@ -20,7 +20,7 @@ BRANCHY = ('goto', 'goto16', 'goto32', 'ift', 'ifz', 'pswitch', 'sswitch', 'retv
 
 
 class Template:
-    def __init__(self, body, tries=(), sym=(), nt=2, seed=0, misaligned=False, share=False):
+    def __init__(self, body, tries=(), sym=(), nt=2, seed=0, misaligned=False, share=False, hmap=None, catch_all=None):
         self.body = list(body)          # list of kinds
         self.tries = list(tries)        # list of dict(start=idx of ins, end=idx (exclusive, may be len(body)), handler=idx)
         self.sym = set(sym)             # names of symbolic quantities: 'b<i>' branch of ins i, 't<i>_<k>' switch target,
@@ -28,11 +28,18 @@ class Template:
         self.nt = nt                    # targets per switch payload
         self.seed = seed
         self.misaligned = misaligned
-        self.share = share and len(self.tries) > 1      # all tries use one handler list
+        # hmap[j] = index of the handler list used by try j (several tries may share a list, not necessarily neighbours);
+        # catch_all[h] = instruction index of the catch-all handler of list h, or None
+        if hmap is None:
+            hmap = [0] * len(self.tries) if (share and len(self.tries) > 1) else list(range(len(self.tries)))
+        self.hmap = list(hmap)
+        self.nlists = (max(self.hmap) + 1) if self.hmap else 0
+        self.catch_all = list(catch_all) if catch_all is not None else [None] * self.nlists
+        self.share = len(set(self.hmap)) < len(self.hmap)
 
     def describe(self):
         return dict(body=self.body, tries=self.tries, symbolic=sorted(self.sym), switch_targets=self.nt,
-                    shared_handler_list=self.share)
+                    handler_list_of_try=self.hmap, catch_all=self.catch_all)
 
 
 def gen_template(rnd, flavour):
@@ -145,7 +152,11 @@ def build(t):
         val['ts%d' % j] = uoff[tr['start']]
         endu = body_units if tr['end'] >= n else uoff[tr['end']]
         val['tc%d' % j] = endu - uoff[tr['start']]
-        val['th%d' % j] = uoff[tr['handler']]
+    for j, tr in enumerate(t.tries):
+        val.setdefault('th%d' % t.hmap[j], uoff[tr['handler']])
+    for h, ca in enumerate(t.catch_all):
+        if ca is not None:
+            val['ca%d' % h] = uoff[ca]
     # units
     units = []
     pos = {}            # field -> (unit index, kind of encoding)
@@ -201,14 +212,13 @@ def build(t):
         else:
             units += [0x0300, 2, 2, 0, 0x1111, 0x2222]
     assert len(units) == total_units
-    if t.share:
-        for j in range(1, len(t.tries)):
-            val['th%d' % j] = val['th0']
-        tries = [(val['ts%d' % j], val['tc%d' % j], 0) for j in range(len(t.tries))]
-        handlers = [([('Ljava/lang/Exception;', val['th0'])], None)]
-    else:
-        tries = [(val['ts%d' % j], val['tc%d' % j], j) for j in range(len(t.tries))]
-        handlers = [([('Ljava/lang/Exception;', val['th%d' % j])], None) for j in range(len(t.tries))]
+    tries = [(val['ts%d' % j], val['tc%d' % j], t.hmap[j]) for j in range(len(t.tries))]
+    handlers = [([('Ljava/lang/Exception;', val['th%d' % h])], val.get('ca%d' % h)) for h in range(t.nlists)]
+    hl_off = []          # byte offset of each list inside the handler section (after the count byte)
+    o = 1
+    for h in range(t.nlists):
+        hl_off.append(o)
+        o += 4 if t.catch_all[h] is not None else 3
     A = Cls('LA;', dmethods=[Mth('f', 'V', (), 0x9, Code(4, 0, 0, lambda P: units, tries=tries, handlers=handlers))])
     blob, P, L = dexasm.assemble([A])
     items = list(blob)
@@ -235,6 +245,8 @@ def build(t):
                                -(1 << 31), (1 << 31) - 1)
         else:
             j = int(name[2:])
+            if name.startswith('ts') and False:
+                pass
             if name.startswith('ts'):
                 o = L.tries_off[('LA;', 'f')] + 8 * j
                 bs = [fresh_byte('%s_%d' % (name, q)) for q in range(4)]
@@ -246,8 +258,8 @@ def build(t):
                 items[o:o + 2] = bs
                 S[name] = SInt(z3.ZeroExt(W - 16, z3.Concat(z3.Extract(7, 0, bs[1].e), z3.Extract(7, 0, bs[0].e))), 0, 0xffff)
             else:
-                # handler list j: [size=1][type uleb 1 byte][addr uleb 1 byte]; lists are laid out after the list count byte
-                o = L.handlers_off[('LA;', 'f')] + 1 + 3 * (0 if t.share else j) + 2
+                # handler list h: [sleb size][type uleb 1 byte][addr uleb 1 byte][catch-all addr uleb 1 byte]
+                o = L.handlers_off[('LA;', 'f')] + hl_off[j] + (2 if name.startswith('th') else 3)
                 b = fresh_byte(name)
                 items[o] = b
                 pre.append(b.e < 0x80)
@@ -259,8 +271,6 @@ def build(t):
 
     def q(name):
         """z3 term (code units) of a quantity, symbolic or concrete"""
-        if t.share and name.startswith('th'):
-            name = 'th0'
         return S[name].e if name in S else z3.BitVecVal(val[name], W)
     B.q = q
     # validity preconditions: every target is a body instruction start; tries are well formed and ordered
@@ -289,7 +299,10 @@ def build(t):
         if prev_end is not None:
             pre.append(ts >= prev_end)
         prev_end = ts + tc
-        pre.append(is_body_start(q('th%d' % j)))
+    for h in range(t.nlists):
+        pre.append(is_body_start(q('th%d' % h)))
+        if t.catch_all[h] is not None:
+            pre.append(is_body_start(q('ca%d' % h)))
     B.pre = pre
     B.layout = L
     return B
@@ -321,9 +334,13 @@ def reference(B):
             succ[i] = []
     tries = []
     for j in range(len(t.tries)):
-        ts, tc, th = 2 * q('ts%d' % j), 2 * q('tc%d' % j), 2 * q('th%d' % j)
-        targets += [ts, th]
-        tries.append((ts, ts + tc - 1, th))
+        h = t.hmap[j]
+        ts, tc = 2 * q('ts%d' % j), 2 * q('tc%d' % j)
+        hl = [('Ljava/lang/Exception;', 2 * q('th%d' % h))]
+        if t.catch_all[h] is not None:
+            hl.append(('Ljava/lang/Throwable;', 2 * q('ca%d' % h)))
+        targets += [ts] + [a for _, a in hl]
+        tries.append((ts, ts + tc - 1, hl))
     R.targets, R.succ, R.tries = targets, succ, tries
     return R
 
@@ -378,7 +395,14 @@ def curated():
         T(['c2', 'pswitch', 'c1', 'goto32', 'c3', 'retv'], sym={'t1_0', 't1_1', 'b3'}, seed=3),
         T(['c1', 'sswitch', 'c2', 'ifz', 'nop', 'ret'], sym={'t1_0', 't1_1', 'b3'}, seed=4),
         T(['c1', 'c2', 'ifz', 'c1', 'c3', 'c1', 'retv'], tries=[dict(start=0, end=2, handler=5), dict(start=3, end=5, handler=5)],
-          sym={'ts1', 'tc1', 'b2'}, seed=5, share=True),
+          sym={'ts1', 'tc1', 'b2'}, seed=5, hmap=[0, 0]),
+        T(['c1', 'c1', 'c2', 'c1', 'ifz', 'c1', 'c1', 'retv'],
+          tries=[dict(start=0, end=1, handler=6), dict(start=2, end=3, handler=5), dict(start=3, end=5, handler=6)],
+          sym={'ts2', 'tc2', 'b4'}, seed=10, hmap=[0, 1, 0]),
+        T(['c1', 'c2', 'ifz', 'c1', 'c3', 'c1', 'retv'], tries=[dict(start=0, end=3, handler=4)],
+          sym={'ts0', 'tc0', 'ca0'}, seed=11, hmap=[0], catch_all=[5]),
+        T(['c1', 'goto16', 'c2', 'c1', 'c1', 'throw'], tries=[dict(start=0, end=2, handler=3), dict(start=2, end=4, handler=4)],
+          sym={'th0', 'ca1', 'b1'}, seed=12, hmap=[0, 1], catch_all=[None, 5]),
         T(['c1', 'c2', 'goto32', 'c1', 'c3', 'c1', 'throw'], tries=[dict(start=0, end=2, handler=6), dict(start=3, end=5, handler=5)],
           sym={'ts0', 'tc0', 'th1'}, seed=6),
         T(['nop', 'ift', 'c2', 'c2', 'c1', 'ret'], tries=[dict(start=1, end=4, handler=4)], sym={'ts0', 'tc0', 'b1'}, seed=7),
@@ -520,9 +544,9 @@ def job(jc, spec):
 
     def ext(m):
         tries = []
-        for (ts, te, th) in R.tries:
+        for (ts, te, hl) in R.tries:
             ev = lambda e: m.eval(e, model_completion=True).as_signed_long()
-            tries.append([ev(ts), ev(te), [ev(th)]])
+            tries.append([ev(ts), ev(te), [ev(a) for _, a in hl], [n for n, _ in hl]])
         return dict(prop=which, blob=concrete_instance(B, m).hex(), tries=tries)
     regions = {}
     if which == 'C12':
@@ -577,17 +601,19 @@ def job(jc, spec):
         elif which == 'C12':
             for b in blocks:
                 bs, be = b['start'], b['end']
-                ovs = [z3.And(ts <= be - 1, te >= bs) for (ts, te, th) in R.tries]
+                ovs = [z3.And(ts <= be - 1, te >= bs) for (ts, te, hl_) in R.tries]
                 if b['exc'] is None:
                     obs['block @%d reports no handlers' % bs] = z3.Not(z3.Or(ovs + [z3.BoolVal(False)]))
                 else:
                     es, ee, hl = b['exc']
                     alts = []
-                    for (ts, te, th), ov in zip(R.tries, ovs):
-                        hok = len(hl) == 1 and hl[0][0] == 'Ljava/lang/Exception;' and hl[0][2] is not None
-                        alts.append(z3.And(ov, bv(es) == ts, bv(ee) == te, z3.BoolVal(hok),
-                                           (bv(hl[0][1]) == th) if hl else z3.BoolVal(False),
-                                           (blocks[hl[0][2]]['start'] == th) if hok else z3.BoolVal(False)))
+                    for (ts, te, want_hl), ov in zip(R.tries, ovs):
+                        hok = len(hl) == len(want_hl) and all(g[0] == w_[0] and g[2] is not None for g, w_ in zip(hl, want_hl))
+                        conds = [ov, bv(es) == ts, bv(ee) == te, z3.BoolVal(hok)]
+                        if hok:
+                            for g, w_ in zip(hl, want_hl):
+                                conds += [bv(g[1]) == w_[1], blocks[g[2]]['start'] == w_[1]]
+                        alts.append(z3.And(conds))
                     obs['block @%d reports the try range covering it' % bs] = z3.Or(alts + [z3.BoolVal(False)])
         elif which == 'C40':
             obs['disassembly offsets'] = z3.BoolVal(sweep_ok)
@@ -614,7 +640,7 @@ def job(jc, spec):
 
 def run(ctx, which):
     setup()
-    count = {'quick': 18, 'thorough': 150}[ctx.tier]
+    count = {'quick': 20, 'thorough': 150}[ctx.tier]
     ts = templates(ctx.seed, count)
     if which == 'C40':
         ts = [t for t in ts if any(k in ('pswitch', 'sswitch', 'fill') for k in t.body)] + \
@@ -626,7 +652,7 @@ def run(ctx, which):
     ctx.bounds = dict(templates=len(ts), slots='5..8 body instructions + payloads', symbolic_per_template='<= 3-4 quantities: '
                       'branch offsets (8/16/32 bit, full width), switch targets (32 bit), payload reference (32 bit), try '
                       'start_addr (32 bit) / insn_count (16 bit) / handler address (uleb 1 byte)',
-                      tier_note='9 curated templates (every instruction kind, shared and distinct handler lists) + seeded ones: quick 18 / thorough 150 in total, 5 flavours')
+                      tier_note='12 curated templates (every instruction kind, shared and distinct handler lists) + seeded ones: quick 20 / thorough 150 in total, 5 flavours')
     ctx.stubs = ['SymStruct / SymIO for the whole DEX parse', 'adler32 stub returning the skeleton checksum', 'NullLogger']
     ctx.assumptions = ['well-formed code: every branch / switch target and handler address is an instruction start of the '
                        'method body, tries are non-empty, ordered and end on an instruction boundary',
@@ -659,7 +685,7 @@ def replay(w):
         got = concrete_cfg(dex, analysis, blob)
     except Exception as e:
         return True, 'analysis of the witness method raised %r' % e
-    spec = spec_cfg(got['ins'], [(a, b, c) for a, b, c in w['tries']])
+    spec = spec_cfg(got['ins'], [(t_[0], t_[1], t_[2]) for t_ in w['tries']])
     blocks = got['blocks']
     starts = [i[0] for i in got['ins']]
     total = starts[-1] + got['ins'][-1][2]
@@ -705,6 +731,14 @@ def replay(w):
             if cov and (b['exc'] is None or [b['exc'][0], b['exc'][1]] not in [[t[0], t[1]] for t in cov]):
                 bad.append('block [%d,%d) is covered by try [%d,%d] but reports %s' % (
                     b['start'], b['end'], cov[0][0], cov[0][1], None if b['exc'] is None else b['exc'][:2]))
+            elif cov:
+                t_ = [t for t in cov if [t[0], t[1]] == [b['exc'][0], b['exc'][1]]][0]
+                want_h = [[n, a] for n, a in zip(t_[3], t_[2])] if len(t_) > 3 else None
+                got_h = [[h[0], h[1]] for h in b['exc'][2]]
+                if want_h is not None and got_h != want_h:
+                    bad.append('block [%d,%d): handlers %r, the try item encodes %r' % (b['start'], b['end'], got_h, want_h))
+                elif any(h[2] is None or blocks[h[2]]['start'] != h[1] for h in b['exc'][2]):
+                    bad.append('block [%d,%d): a handler block does not start at its handler address' % (b['start'], b['end']))
     elif which == 'C40':
         for b in blocks:
             if b['start'] not in starts:
